@@ -136,10 +136,13 @@ func genSeq(r *vh.Rng, format string, o vh.Opts) []posn {
 	indef, _ := o["IndefiniteLength"].(bool)
 	arrOK := format == "json" || (format == "cbor" && indef)
 	seq := make([]posn, 0, n)
+	prevBare := false
 	for i := 0; i < n; i++ {
 		var p posn
-		// json without TermWhitespace: a bare number / literal may only be the LAST value of the stream
-		needSD := needSDall && i < n-1
+		// json without TermWhitespace: a bare number / literal is ended by the first byte of what follows: it may be
+		// the LAST value of the stream, or be followed by a value whose text starts with [ { " (never by another
+		// bare value: `12` `7` would read as 127)
+		needSD := needSDall && (prevBare || (i < n-1 && r.Chance(2, 3)))
 		p.mode = r.PickString("typed", "typed", "naked", "naked", "raw", "raw", "raw", "wrap", "wrap", "wrap", "arr")
 		if p.mode == "arr" && !arrOK {
 			p.mode = "wrap"
@@ -167,6 +170,7 @@ func genSeq(r *vh.Rng, format string, o vh.Opts) []posn {
 			p.t = randTopType(r, format, needSD)
 			p.v = vh.RandValue(r, p.t, vo)
 		}
+		prevBare = needSDall && !selfDelimiting(p.t)
 		seq = append(seq, p)
 	}
 	return seq
@@ -240,9 +244,13 @@ type seqCtx struct {
 	failed      bool
 	norm        vh.NormCfg
 	modesSeen   map[string]bool
+	after       bool // re-checking after the whole stream has been consumed
 }
 
 func (c *seqCtx) fail(class, what string, extra map[string]interface{}) {
+	if c.after {
+		class += ":after-stream"
+	}
 	cj := map[string]interface{}{}
 	for k, v := range c.cj {
 		cj[k] = v
@@ -302,6 +310,18 @@ func (c *seqCtx) checkRawField(name string, t reflect.Type, src reflect.Value, r
 	}
 }
 
+// the Raw fields of a wrap destination once more (after the rest of the stream has been read)
+func (c *seqCtx) checkWrapRaws(p posn, dst reflect.Value, i int) {
+	for j := 0; j < p.t.NumField(); j++ {
+		if p.fm[j] == "raw" {
+			f := p.t.Field(j)
+			c.after = true
+			c.checkRawField(f.Name, f.Type, p.v.Field(j), dst.FieldByName(f.Name).Bytes(), i)
+			c.after = false
+		}
+	}
+}
+
 func (c *seqCtx) checkWrap(p posn, dst reflect.Value, i int) {
 	for j := 0; j < p.t.NumField(); j++ {
 		f := p.t.Field(j)
@@ -346,6 +366,9 @@ func runSeq(r *vh.Rng, format string, idx int, sum *vh.Summary) {
 	}
 	if format == "binc" && r.Chance(2, 3) {
 		o["AsSymbols"] = 1
+	}
+	if r.Chance(1, 3) {
+		o["ZeroCopy"] = true // captured Raw / decoded values may be views of the INPUT, never of a reader's transient storage
 	}
 	o["Raw"] = true
 	seq := genSeq(r, format, o)
@@ -428,7 +451,9 @@ func runSeq(r *vh.Rng, format string, idx int, sum *vh.Summary) {
 	}
 	c.cj["dec_transport"] = c.decT
 	raws := make([][]byte, len(seq))
+	var later []func()
 	for i, p := range seq {
+		i, p := i, p
 		ex := map[string]interface{}{"position": i, "mode": p.mode, "type": p.t.String()}
 		var err error
 		switch p.mode {
@@ -453,21 +478,30 @@ func runSeq(r *vh.Rng, format string, idx int, sum *vh.Summary) {
 			var raw codec.Raw
 			if err = d.Decode(&raw); err == nil {
 				raws[i] = raw
-				b := part(i)
-				ok := bytes.Equal(raw, b)
-				if !ok && format == "json" && c.termWS && len(b) > 0 {
-					ok = bytes.Equal(raw, b[:len(b)-1]) // without the delimiter TermWhitespace wrote
+				chk := func(when string) {
+					b := part(i)
+					ok := bytes.Equal(raw, b)
+					if !ok && format == "json" && c.termWS && len(b) > 0 {
+						ok = bytes.Equal(raw, b[:len(b)-1]) // without the delimiter TermWhitespace wrote
+					}
+					if !ok {
+						ex2 := map[string]interface{}{"position": i, "mode": "raw", "type": p.t.String(), "raw": vh.Hex(raw), "want": vh.Hex(b), "when": when}
+						c.fail("raw:bytes"+when+":"+vh.DescribeKind(p.t), "Decode(&Raw) did not capture exactly the bytes the i-th Encode wrote", ex2)
+					}
 				}
-				if !ok {
-					ex["raw"], ex["want"] = vh.Hex(raw), vh.Hex(b)
-					c.fail("raw:bytes:"+vh.DescribeKind(p.t), "Decode(&Raw) did not capture exactly the bytes the i-th Encode wrote", ex)
-				}
+				chk("")
+				// ... and again once the whole stream has been consumed: a Raw is the caller's (C13), later reads on
+				// the same Decoder must not change it
+				later = append(later, func() { chk(":after-stream") })
 			}
 		case "wrap", "arr":
 			dst := reflect.New(p.dstT)
 			if err = d.Decode(dst.Interface()); err == nil {
 				if p.mode == "wrap" {
 					c.checkWrap(p, dst.Elem(), i)
+					if !c.failed {
+						later = append(later, func() { c.checkWrapRaws(p, dst.Elem(), i) })
+					}
 				} else {
 					for k := 0; k < p.dstT.Len(); k++ {
 						if df := vh.FirstDiff(vh.Norm(p.v.Index(k), c.norm), dst.Elem().Index(k)); df != "" {
@@ -489,6 +523,10 @@ func runSeq(r *vh.Rng, format string, idx int, sum *vh.Summary) {
 		if format == "json" && c.termWS {
 			okN = nr == ends[i] || nr == ends[i]-1
 		}
+		if format == "json" && !c.termWS && i < len(seq)-1 && !selfDelimiting(p.t) {
+			// a bare number is ended by the next value's first byte, which is then the pending token
+			okN = nr == ends[i] || nr == ends[i]+1
+		}
 		if !okN {
 			ex["numread"], ex["want"] = nr, ends[i]
 			cls := "numread:" + p.mode
@@ -498,6 +536,13 @@ func runSeq(r *vh.Rng, format string, idx int, sum *vh.Summary) {
 			c.fail(cls, "NumBytesRead after the i-th Decode differs from the length of the first i encodings", ex)
 			return
 		}
+	}
+	// captured Raw values, looked at again now that every later value has been read
+	for _, f := range later {
+		if c.failed {
+			break
+		}
+		f()
 	}
 	// nothing left
 	var extra interface{}
